@@ -41,6 +41,9 @@ type c01Case struct {
 	Content []byte `json:"content"`
 	Split   int    `json:"split,omitempty"`
 	Bad     string `json:"bad_descriptor,omitempty"`
+	// Pre: the content that really has the declared digest is already in the repository before the
+	// inconsistent push is made (a registry that recognises the digest must still check the bytes).
+	Pre bool `json:"declared_digest_already_present,omitempty"`
 }
 
 // independent digest computation (not go-digest)
@@ -182,8 +185,27 @@ func c01Run(r *vcore.Run, c c01Case) (reads int64) {
 		desc.Digest = ociregistry.Digest(indepDigest("sha512", other))
 	case "sha512-right":
 		desc.Digest = ociregistry.Digest(indepDigest("sha512", c.Content))
+	case "prefix":
+		// the descriptor is right for the content without its last byte: the stream carries one byte more
+		// than declared, and what was declared is exactly what a reader stopping at the size would see
+		desc = ociregistry.Descriptor{MediaType: mtOctet, Digest: ociregistry.Digest(indepDigest("sha256", c.Content[:n-1])), Size: n - 1}
 	}
 	r.Guard("content", fp, c, func() {
+		var honest []byte
+		if c.Pre {
+			honest = c.Content
+			if c.Bad == "digest" || c.Bad == "both" {
+				honest = other
+			}
+			if c.Bad == "prefix" {
+				honest = c.Content[:n-1]
+			}
+			fp += "/declared-digest-already-present"
+			if _, err := reg.PushBlob(ctx, "r", descOf(mtOctet, honest), bytes.NewReader(honest)); err != nil {
+				r.Violate("content", fp+"/setup-push-refused", c, "accepted", err.Error())
+				return
+			}
+		}
 		accepted, perr := c01Push(ctx, reg, handler, c, desc)
 		isManifest := strings.HasPrefix(c.Path, "manifest")
 		get := func(d ociregistry.Digest) ([]byte, ociregistry.Descriptor, error) {
@@ -198,7 +220,12 @@ func c01Run(r *vcore.Run, c c01Case) (reads int64) {
 			}
 			// nothing retrievable under the declared digest
 			reads++
-			if data, _, err := get(desc.Digest); err == nil {
+			if data, _, err := get(desc.Digest); c.Pre {
+				// the earlier, honest content stays what the digest names
+				if err != nil || !bytes.Equal(data, honest) {
+					r.Violate("content", fp+"/honest-content-disturbed/"+c.Bad, c, fmt.Sprintf("%q", honest), fmt.Sprintf("%q %v", data, err))
+				}
+			} else if err == nil {
 				r.Violate("content", fp+"/retrievable-after-rejection/"+c.Bad, c, "nothing under the declared digest", fmt.Sprintf("%q", data))
 			}
 			r.Outcome("rejected")
@@ -566,16 +593,19 @@ func c01Check(r *vcore.Run) vcore.Coverage {
 				if (p == "PushBlob" || p == "chunked" || p == "single-post" || p == "mount" || p == "manifest-raw-put") && len(content) <= 5 {
 					bads := []string{"digest", "sha512-wrong", "sha512-right"}
 					if p == "PushBlob" || p == "single-post" {
-						bads = append(bads, "size+1", "size-1", "both")
+						bads = append(bads, "size+1", "size-1", "both", "prefix")
 					}
 					for _, b := range bads {
-						if b == "size-1" && len(content) == 0 {
+						if (b == "size-1" || b == "prefix") && len(content) == 0 {
 							continue
 						}
 						if (p == "mount") && b != "digest" {
 							continue
 						}
 						cases = append(cases, c01Case{Stack: st, Path: p, Content: content, Bad: b})
+						if p != "mount" && p != "manifest-raw-put" && !strings.HasPrefix(b, "sha512") {
+							cases = append(cases, c01Case{Stack: st, Path: p, Content: content, Bad: b, Pre: true})
+						}
 					}
 				}
 			}
